@@ -600,6 +600,7 @@ package zerolog
 
 //@ func (*TriggerLevelWriter).trigger(w) err
 //@   props C15
+//@   flag replay trigger_writer
 //@   arith int
 //@   flag noovf
 //@   flag guarded mu buf triggered
@@ -657,6 +658,7 @@ package zerolog
 
 //@ func (*TriggerLevelWriter).Trigger(w) err
 //@   props C15
+//@   flag replay trigger_writer
 //@   arith int
 //@   flag guarded mu buf triggered
 //@   requires w != nil && !held(w.mu) && w.Writer != nil
@@ -665,6 +667,7 @@ package zerolog
 
 //@ func (*TriggerLevelWriter).Close(w) err
 //@   props C15
+//@   flag replay trigger_writer
 //@   arith int
 //@   flag guarded mu buf triggered
 //@   requires w != nil && !held(w.mu)
